@@ -69,6 +69,16 @@ Theorem C07_md5_crypt_shaped_token_makes_the_catch_all_pattern_match :
   RxSub.search s G_rx.PWD_RX_54_0 <> None.
 Proof. exact HashToken.md5_crypt_shaped_token_makes_the_catch_all_match. Qed.
 
+
+(* every one of the 57 patterns of the GENERATED secrets table begins with the same look-behind (checked by computation on this run), so for EVERY line and
+   position a secrets-stage match starts at the line start, after a blank, or after a character that is neither a word character nor a hyphen: never in
+   the middle of a word -- a keyword such as "password" is only recognised as a standalone word *)
+Theorem C07_secrets_match_starts_at_a_word_boundary :
+  forall (s : list Rx.chr) (it : Rx.re * option nat * option nat) (i : nat) (c : Rx.caps) (j : nat) (c' : Rx.caps),
+  In it (concat G_rx.PWD_REGEXES) -> In (j, c') (Rx.ms s (fst (fst it)) i c) ->
+  i = 0%nat \/ ((1 <= i)%nat /\ exists x, nth_error s (i - 1) = Some x /\ (Rx.in_cset x G_rx.cs21 = true \/ x = 32%N)).
+Proof. exact HashToken.secrets_match_starts_at_a_word_boundary. Qed.
+
 Print Assumptions C07_numeric_password_before_a_word_survives_refuted.
 Print Assumptions C07_hash_after_a_captured_reserved_word_survives_refuted.
 Print Assumptions C07_allocator_outputs_independent_of_secret_content.
@@ -77,3 +87,4 @@ Print Assumptions C07_generated_line_patterns_consume_text.
 Print Assumptions C07_first_of_two_communities_on_a_line_survives_refuted.
 Print Assumptions C07_juniper_shaped_token_makes_the_catch_all_pattern_match.
 Print Assumptions C07_md5_crypt_shaped_token_makes_the_catch_all_pattern_match.
+Print Assumptions C07_secrets_match_starts_at_a_word_boundary.
